@@ -212,7 +212,8 @@ func dispatch(c *network.OneConnection, cmd *network.BCmsg) (leave bool) {
 	case "authack":
 		if !cmd.VerifTrusted() {
 			println(c.PeerAddr.Ip(), "sent us unsigned authack")
-			return true // Run(): "return" - see the Run-mode test for what that means for the connection
+			c.Disconnect(false, "UnsignedAuthAck")
+			return false
 		}
 		c.Mutex.Lock()
 		c.X.AuthAckGot = true
